@@ -254,6 +254,12 @@ func ops() []op {
 			n.Set(field(n, 1), protoreflect.ValueOfInt32(5))
 			return m
 		},
+		func(md protoreflect.MessageDescriptor) *dynamicpb.Message { // known field + unknown fields (kept by Unmarshal, must stay in Size/Marshal)
+			m := dynamicpb.NewMessage(md)
+			m.Set(field(m, 1), protoreflect.ValueOfInt32(7))
+			m.SetUnknown(protoreflect.RawFields{0xf8, 0x07, 0x05, 0xfa, 0x07, 0x03, 'u', 'n', 'k'})
+			return m
+		},
 	} {
 		tree := tree
 		out = append(out, op{name: fmt.Sprintf("Unmarshal(b%d)", i), enabled: always, apply: func(w *world) string {
@@ -526,7 +532,7 @@ func main() {
 			for _, o := range all {
 				switch o.name {
 				case "a=1", "a=300", "s=len127", "s=len128", "next={}", "next.s=len128(nested only)", "kids+={a:1}", "kids.truncate", "kids[0].s=len127(nested only)",
-					"Size()", "Marshal()", "MarshalTo(exact)", "csproto.Marshal", "runtime.Size", "runtime.Marshal", "Unmarshal(b1)", "Reset()", "Clone()-and-continue":
+					"Size()", "Marshal()", "MarshalTo(exact)", "csproto.Marshal", "runtime.Size", "runtime.Marshal", "Unmarshal(b1)", "Unmarshal(b2)", "Reset()", "Clone()-and-continue":
 					sub = append(sub, o)
 				}
 			}
